@@ -508,6 +508,25 @@ def replay_concrete(harness, model):
     """Run the harness on the concrete values of a solver model against *unpatched* graphiq.
     Returns (reproduced: bool, failures, error)"""
     S = ConcreteSession(model)
+    import numpy.random as npr
+
+    saved = (npr.randint, npr.choice)
+
+    def randint(low, high=None, size=None, **k):
+        if high is None:
+            low, high = 0, low
+        if size is None and (low, high) == (0, 2):
+            return S.outcome("randint(0,2)")
+        return saved[0](low, high, size, **k)
+
+    def choice(a, size=None, replace=True, p=None):
+        vals = list(a) if not isinstance(a, int) else list(range(a))
+        if size is None and len(vals) == 2:
+            return vals[S.outcome("choice")]
+        return saved[1](a, size, replace, p)
+
+    # the only environment control in a replay: RNG draws return the solver model's outcomes, in order
+    npr.randint, npr.choice = randint, choice
     try:
         spec = harness.declare(S)
         S.declared = True
@@ -522,6 +541,8 @@ def replay_concrete(harness, model):
                 where = f"{os.path.basename(fr.filename)}:{fr.lineno}"
                 break
         S.failed.append(("no-exception", f"{type(e).__name__}: {e} @ {where}"))
+    finally:
+        npr.randint, npr.choice = saved
     return bool(S.failed), S.failed, None
 
 
